@@ -93,6 +93,8 @@ var atomFuncs = map[string]string{
 	"(" + modPath + "/analysis/sql.Table).TableName":        "IDENT",
 	"(go/constant.Value).ExactString":                       "CONST",
 	"strconv.Quote":                                         "QSTR",
+	"strconv.Itoa":                                          "INT",
+	"strconv.FormatInt":                                     "INT",
 	"strconv.FormatFloat":                                   "CONST",
 	"(reflect.StructTag).Get":                               "USER",
 	"(go/constant.Value).String":                            "CONST",
@@ -622,6 +624,11 @@ func (ev *tplEval) eval(fc *fctx, e ast.Expr) Sketch {
 		}
 		return ev.unk(e, "call "+full)
 	case *ast.IndexExpr:
+		// a lookup in a read-only package-level table: one of its values (a missing key gives "", which the code
+		// either refuses before use or means as "nothing")
+		if t, _ := tableLookup(ev.w, info, e); t != nil {
+			return ev.tableValues(t)
+		}
 		if call, ok := e.X.(*ast.CallExpr); ok {
 			if fn := calleeOf(info, call); fn != nil && fn.FullName() == "strings.Fields" {
 				return Sketch{Atom{"TYPE", es(e)}}
@@ -722,6 +729,9 @@ func (ev *tplEval) tuple(fc *fctx, e ast.Expr, i int) Sketch {
 	info := fc.pkg.TypesInfo
 	call, ok := ast.Unparen(e).(*ast.CallExpr)
 	if !ok {
+		if t, _ := tableLookup(ev.w, info, e); t != nil && i == 0 {
+			return ev.tableValues(t) // v, ok := table[k]
+		}
 		return ev.unk(e, "tuple from a non-call")
 	}
 	fn := calleeOf(info, call)
@@ -1164,4 +1174,34 @@ func (ev *tplEval) callThroughParam(fc *fctx, id *ast.Ident, call *ast.CallExpr)
 		return opts[0], true
 	}
 	return Sketch{Alt{opts}}, true
+}
+
+// tableValues: the alternatives a lookup in a package-level table can yield.
+func (ev *tplEval) tableValues(t *pkgTableInfo) Sketch {
+	var opts []Sketch
+	seen := map[string]bool{}
+	var pkg *packages.Package
+	for _, p := range ev.w.Pkgs {
+		if p.TypesInfo == t.info {
+			pkg = p
+		}
+	}
+	if pkg == nil {
+		return Sketch{Atom{"UNKNOWN", "table " + t.obj.Name()}}
+	}
+	fc := newFctx(pkg, nil)
+	for _, en := range t.entries {
+		sk := ev.eval(fc, en.val)
+		if k := sk.String(); !seen[k] {
+			seen[k] = true
+			opts = append(opts, sk)
+		}
+	}
+	switch len(opts) {
+	case 0:
+		return Sketch{}
+	case 1:
+		return opts[0]
+	}
+	return Sketch{Alt{opts}}
 }
